@@ -269,6 +269,9 @@ def gen_sv_case(rng):
     elif r < 0.25 and t:
         i = rng.randrange(len(t))
         t[i] = (t[i][0], rng.choice([0x9fffffff, 0xa0000000, 0xffffffff, 0x10000000]), t[i][2], t[i][3])
+    if t and rng.random() < 0.2:
+        i = rng.randrange(len(t))          # a marker name inside an in-memory table (find_sym hides it)
+        t[i] = (t[i][0], t[i][1], t[i][2], rng.choice(SYMEND))
     addrs = set()
     for s in t:
         for a in (s[0] - 1, s[0], s[0] + s[1] // 2, s[0] + s[1] - 1, s[0] + s[1], s[0] + s[1] + 1):
@@ -704,7 +707,7 @@ def check_case(case, pairs, mouts, expects, st):
         # nm cross-check: first and last byte of every function resolve to a symbol starting there
         io = pairs[0][1].split()[1:]
         nm = st["nm_info"].get(case, [])
-        if well_formed(table):
+        if True:      # also on a table that is not well-formed: the property is about functions
             for k, (a, sz, names) in enumerate(nm):
                 for j, q in enumerate((a, a + sz - 1)):
                     r = parse_sym(io[2 * k + j])
@@ -737,7 +740,7 @@ def run_cases(ctx, exe, cases, expects_by_case, st):
     r, out = run_harness(ctx, exe, cases)
     if r.returncode != 0 or len(out) != len(cases):
         return None, {"rc": r.returncode, "stderr": r.stderr[-2000:], "cases": len(cases), "got": len(out),
-                      "last_case": cases[len(out) - 1][:2000] if out else None}
+                      "harness_case": cases[len(out)][:20000] if len(out) < len(cases) else None}
     # extra model queries: NoProperOverlap of the raw table for lf cases
     mlines = []
     idx = []
